@@ -296,12 +296,13 @@ class _AndFilterToSqlWhere:
             return None
         base_subquery = select(sql.Note.id).join(sql.LinkLink).join(sql.Link)
         for link_filter in self.and_filter.link_filters:
+            # The subquery selects the notes that DO link to the file; only
+            # the outer operator depends on whether the filter is negated.
+            like_op = sql.Link.name.like  # type: ignore[attr-defined]
             if link_filter.negated:
                 in_op = sql.Note.id.not_in  # type: ignore[union-attr]
-                like_op = sql.Link.name.not_like  # type: ignore[attr-defined]
             else:
                 in_op = sql.Note.id.in_  # type: ignore[union-attr]
-                like_op = sql.Link.name.like  # type: ignore[attr-defined]
 
             link_name = link_filter.link
             notes_in_file = _get_notes_in_file(self.session, link_name)
